@@ -934,6 +934,13 @@ func symbolByName(name string) *symbol {
 }
 
 func replay() {
+	var tm typedMarginCase
+	if err := mc.LoadReplay(chk.ReplayFile(), &tm); err == nil && tm.Kind == "typed-margin" {
+		l := chk.NewLocal()
+		typedMarginOne(l, tm)
+		l.Merge()
+		return
+	}
 	var sc sharedCase
 	if err := mc.LoadReplay(chk.ReplayFile(), &sc); err == nil && sc.Kind == "shared-hints" {
 		fmt.Printf("replay %+v: the shared-hints sub-space is re-run as a whole (it takes seconds)\n", sc)
@@ -990,6 +997,7 @@ func main() {
 	runHugeSymbols()
 	runHintedQR()
 	runFarCanvases()
+	runTypedMargins()
 	runTexturedQR()
 	runHintedDM()
 	runHistory()
